@@ -30,7 +30,7 @@ func init() {
 		},
 		Batch: func(t string) int { return 35 },
 		Floors: []string{"snapshots_compared", "typed_values_retained", "cloned_rows_retained", "uncloned_rows_checked", "writer_inputs_checked", "activity_read_more", "activity_seek", "activity_reset", "activity_close", "activity_other_reader",
-			"activity_writer_churn", "activity_gc", "batch_slice_reused", "page_boundary_crossed", "typed_source_buffer", "activity_source_buffer_refilled", "row_writer_wrappers_checked", "reader_FilterRowReader", "reader_TransformRowReader"},
+			"activity_writer_churn", "activity_gc", "batch_slice_reused", "page_boundary_crossed", "typed_source_buffer", "cloned_source_buffer", "dedupe_writer_batches_with_duplicates", "activity_source_buffer_refilled", "row_writer_wrappers_checked", "reader_FilterRowReader", "reader_TransformRowReader"},
 		Rule: "case = (file of a catalogue type with byte-array / FLBA / int96 / dictionary / nested list columns, small pages; history: Read a batch of Go values (the batch slice is reused, rows are retained by shallow copy like a caller would) or ReadRows; deep snapshot; " +
 			"then PRNG later activity: more reads, SeekToRow, Reset, Close, other readers on the same and other files, writer churn through the shared pools, runtime.GC; compare). The verif build overwrites pooled memory on release (0xDB), so a dangling alias changes the retained value deterministically. " +
 			"Writer side: rows and slices passed to Write/WriteRows/SortingWriter/WriteRowGroup are snapshotted before and compared after. Distinct = descriptor hash; non-trivial = at least one later activity between snapshot and comparison",
@@ -249,7 +249,19 @@ func runC16(c *Ctx) {
 			}
 			c.Obs("snapshots_compared", retained.Len())
 		case 1, 2:
-			rg := f.RowGroups()[r.Intn(len(f.RowGroups()))]
+			var rg parquet.RowGroup = f.RowGroups()[r.Intn(len(f.RowGroups()))]
+			// cloned rows are also taken from an in-memory buffer row group whose owner resets and refills it later
+			var cloneBuf gbuffer
+			if mode == 1 && r.P(40) {
+				cloneBuf = te.ops.NewBuffer()
+				if _, err := te.ops.BufferWrite(cloneBuf, rows); err != nil {
+					c.Fail("harness.buffer", nil, "%v", err)
+					return
+				}
+				rg = cloneBuf
+				c.D("source", "buffer")
+				c.Obs("cloned_source_buffer", 1)
+			}
 			rr := rg.Rows()
 			// mode 2 also reads through the RowReader wrappers: what they return must be the
 			// right rows at return time (a wrapper that calls its source twice per call hands
@@ -358,6 +370,15 @@ func runC16(c *Ctx) {
 			acts = append(acts, "close")
 			c.Obs("activity_close", 1)
 			if mode == 1 {
+				if cloneBuf != nil {
+					cloneBuf.Reset()
+					te.ops.BufferWrite(cloneBuf, other)
+					rowGroupRows(cloneBuf, 64)
+					cloneBuf.Reset()
+					te.ops.BufferWrite(cloneBuf, other)
+					acts = append(acts, "source_buffer_reset_refill")
+					c.Obs("activity_source_buffer_refilled", 1)
+				}
 				churn(2)
 				churn(0)
 				churn(3)
@@ -432,6 +453,22 @@ func c16Writer(c *Ctx, r *gen.Rand, te *typeEntry, rows reflect.Value, opts []pa
 			sortBuffer(rb)
 			dw := parquet.DedupeRowWriter(parquet.NewBuffer(schema), schema.Comparator(parquet.Ascending("id")))
 			dw.WriteRows(prows)
+			// a batch with duplicates followed by other rows: what is dropped is dropped downstream, not in the caller's slice
+			var dupBatch []parquet.Row
+			for i, row := range prows {
+				dupBatch = append(dupBatch, row)
+				if i%3 == 0 {
+					dupBatch = append(dupBatch, row.Clone())
+				}
+			}
+			dupSnap := snapshotRows(dupBatch)
+			dw2 := parquet.DedupeRowWriter(parquet.NewBuffer(schema), schema.Comparator(parquet.Ascending("id")))
+			dw2.WriteRows(dupBatch)
+			if ok, diff := rowsMatchSnapshot(dupBatch, dupSnap); !ok {
+				c.Fail("c16.writer_modified_input", map[string]any{"api": "DedupeRowWriter"}, "DedupeRowWriter modified the []Row passed by the caller (a batch with duplicates): %s", diff)
+				return
+			}
+			c.Obs("dedupe_writer_batches_with_duplicates", 1)
 			if ok, diff := rowsMatchSnapshot(prows, psnap); !ok {
 				c.Fail("c16.writer_modified_input", map[string]any{"api": api}, "%s modified the []Row passed by the caller: %s", api, diff)
 				return
